@@ -17,6 +17,7 @@ import (
 	"go.brendoncarroll.net/p2p/p/mbapp"
 	"go.brendoncarroll.net/p2p/p/p2pke"
 	"go.brendoncarroll.net/p2p/s/fragswarm"
+	"go.brendoncarroll.net/p2p/s/memswarm"
 	"golang.zx2c4.com/wireguard/replay"
 	"verifharness/internal/hx"
 )
@@ -50,6 +51,19 @@ func srcDo(op []string) string {
 		case "ke gate":
 			cs, cr, rd := p2pke.VerifGates(op[2] == "1", uint8(u(3)))
 			return b2s(cs) + b2s(cr) + b2s(rd)
+		case "mtu mb", "mtu frag":
+			// MTU() of a real message-box / fragmenting swarm over an in-memory transport of the given MTU
+			r := memswarm.NewRealm(memswarm.WithMTU(n(2)))
+			base := r.NewSwarm()
+			defer base.Close()
+			if op[1] == "mb" {
+				mb := mbapp.New[memswarm.Addr, struct{}](p2p.ComposeSecureSwarm[memswarm.Addr, struct{}](base, noSecure[memswarm.Addr]{}), n(3))
+				defer mb.Close()
+				return strconv.Itoa(mb.MTU())
+			}
+			f := fragswarm.New[memswarm.Addr](base, n(3))
+			defer f.Close()
+			return strconv.Itoa(f.MTU())
 		case "kad dop":
 			// kad dop <findnode|join|get|put> <key> <param> <initial> <net>: the four iterative operations against a
 			// simulated network (the `dht` stream's cases); here the regenerated definitions are evaluated on the same line,
@@ -267,6 +281,15 @@ func srcStream(r *rand.Rand, n int, tier string, o *hx.Out) {
 			z := append(make([]byte, r.Intn(4)), x...)
 			emit("kad lz " + hx.Hex(z))
 		case 15:
+			if r.Intn(3) == 0 {
+				inner := hx.Pick(r, 1, 14, 15, 16, 23, 24, 25, 26, 40, 200, 1200, 65536, r.Intn(300))
+				cfg := hx.Pick(r, 0, 1, 100, 255, 256, 65535, 65536, 1<<20, (inner-24)*65535, (inner-24)*65535+1, (inner-15)*255, (inner-15)*255-1, r.Intn(100000))
+				if cfg < 0 {
+					cfg = 0
+				}
+				emit(fmt.Sprintf("mtu %s %d %d", hx.Pick(r, "mb", "frag"), inner, cfg))
+				break
+			}
 			dop, dkey, dparam, dinit, dnet := genDhtCase(r)
 			emit("kad dop " + strings.TrimPrefix(dhtLine(dop, dkey, dparam, dinit, dnet), "dht "))
 		case 14:
